@@ -1,7 +1,915 @@
-//! Lane `tls` (stub).
+//! Lane `tls` (C17): TLS establishment of `LdapConnAsync::new_tcp` against a scripted loopback server.
+//!
+//! Every scenario is one real TCP connection on 127.0.0.1 between the real `LdapConnAsync::with_settings`
+//! (native-tls/OpenSSL) and a server thread (`std::net::TcpListener` + `native_tls::TlsAcceptor`) which
+//! follows a script: what it answers to the StartTLS request (result code, garbage, nothing, close,
+//! reset), which bytes it sends in cleartext behind the response (in the same `write` or in a separate
+//! one once the ClientHello has arrived), and how it behaves in the handshake (certificate, stall, close).
+//! The server records every byte it receives; the client side records Ok/Err kind, whether the handle
+//! runs over TLS (`get_peer_certificate()` is `Some`) and, when establishment succeeds, the result of a
+//! `simple_bind` which the server answers INSIDE TLS with a code different from the forged cleartext one.
+//!
+//!   M tls.run <scheme> <starttls> <no_verify> <connector> <conn_timeout> <readfirst> <chunks> <end> <hs> <cert>
+//!         TAB <outcome> writes=<cleartext messages received before the handshake> tls=<0|1>
+//!   R the clauses of C17 evaluated on the observations (independent of the model)
+//!
+//! Timing: scenarios run concurrently; nothing depends on a sleep except (harmlessly) the split of one
+//! response over two writes; "separate write behind the response" waits for the ClientHello instead.
+//! Stalling scenarios end by `conn_timeout` (1 s) or, without one, by the lane's own 4 s limit (`hang`).
+use crate::fmtx::hex;
 use crate::out::Out;
 use crate::rng::Rng;
+use ldap3::{LdapConnAsync, LdapConnSettings, LdapError};
+use std::io::{Read, Write};
+use std::net::{TcpListener, TcpStream};
+use std::sync::{mpsc, Arc, Mutex};
+use std::time::Duration;
 
-pub fn run(_thorough: bool, _rng: Rng, out: Out) {
-    out.finish("stub lane: nothing generated yet");
+const CA_PEM: &[u8] = include_bytes!("../../certs/ca.pem");
+const GOOD_PEM: &[u8] = include_bytes!("../../certs/good.pem");
+const GOOD_KEY: &[u8] = include_bytes!("../../certs/good.key");
+const WRONG_PEM: &[u8] = include_bytes!("../../certs/wrongname.pem");
+const WRONG_KEY: &[u8] = include_bytes!("../../certs/wrongname.key");
+const SELF_PEM: &[u8] = include_bytes!("../../certs/selfsigned.pem");
+const SELF_KEY: &[u8] = include_bytes!("../../certs/selfsigned.key");
+
+const STARTTLS_OID: &str = "1.3.6.1.4.1.1466.20037";
+const CONN_TIMEOUT_MS: u64 = 1_000;
+const OUTER_MS: u64 = 4_000;
+const INNER_RC: u32 = 49; // what the server answers to the bind INSIDE TLS
+const INNER_TEXT: &str = "inside-tls";
+
+// ---------------------------------------------------------------------------------------------
+// BER helpers (server side only; independent of lber)
+
+fn der(tag: u8, body: &[u8]) -> Vec<u8> {
+    let mut v = vec![tag];
+    let n = body.len();
+    if n < 128 {
+        v.push(n as u8);
+    } else if n < 256 {
+        v.extend([0x81, n as u8]);
+    } else {
+        v.extend([0x82, (n >> 8) as u8, n as u8]);
+    }
+    v.extend(body);
+    v
+}
+
+fn uint_octets(mut n: u64) -> Vec<u8> {
+    let mut v = vec![];
+    loop {
+        v.insert(0, (n & 0xff) as u8);
+        n >>= 8;
+        if n == 0 {
+            break;
+        }
+    }
+    if v[0] & 0x80 != 0 {
+        v.insert(0, 0);
+    }
+    v
+}
+
+/// LDAPMessage { id, [APPLICATION app] { resultCode, matchedDN "", diagnosticMessage text } }
+fn result_msg(id: u64, app: u8, rc: u64, text: &str) -> Vec<u8> {
+    let mut body = der(0x0a, &uint_octets(rc));
+    body.extend(der(0x04, b""));
+    body.extend(der(0x04, text.as_bytes()));
+    let mut m = der(0x02, &uint_octets(id));
+    m.extend(der(0x60 | app, &body));
+    der(0x30, &m)
+}
+
+/// SearchResultEntry for `id` with one attribute
+fn entry_msg(id: u64, dn: &str) -> Vec<u8> {
+    let mut attr = der(0x04, b"cn");
+    attr.extend(der(0x31, &der(0x04, b"forged")));
+    let mut body = der(0x04, dn.as_bytes());
+    body.extend(der(0x30, &der(0x30, &attr)));
+    let mut m = der(0x02, &uint_octets(id));
+    m.extend(der(0x64, &body));
+    der(0x30, &m)
+}
+
+fn starttls_request() -> Vec<u8> {
+    let mut m = der(0x02, &[1]);
+    m.extend(der(0x77, &der(0x80, STARTTLS_OID.as_bytes())));
+    der(0x30, &m)
+}
+
+/// read exactly one BER element (definite length) from `r`
+fn read_element(r: &mut dyn Read) -> std::io::Result<Vec<u8>> {
+    let mut h = [0u8; 2];
+    r.read_exact(&mut h)?;
+    let mut v = h.to_vec();
+    let len = if h[1] < 0x80 {
+        h[1] as usize
+    } else {
+        let k = (h[1] & 0x7f) as usize;
+        if k == 0 || k > 3 {
+            return Err(std::io::Error::new(std::io::ErrorKind::InvalidData, "length form"));
+        }
+        let mut lb = vec![0u8; k];
+        r.read_exact(&mut lb)?;
+        v.extend(&lb);
+        lb.iter().fold(0usize, |a, b| (a << 8) | *b as usize)
+    };
+    let mut body = vec![0u8; len];
+    r.read_exact(&mut body)?;
+    v.extend(body);
+    Ok(v)
+}
+
+/// split a byte log into leading cleartext BER elements (tag 0x30) and the rest
+fn split_cleartext(log: &[u8]) -> (Vec<Vec<u8>>, &[u8]) {
+    let mut msgs = vec![];
+    let mut rest = log;
+    loop {
+        if rest.len() < 2 || rest[0] != 0x30 {
+            return (msgs, rest);
+        }
+        let (hl, len) = if rest[1] < 0x80 {
+            (2, rest[1] as usize)
+        } else {
+            let k = (rest[1] & 0x7f) as usize;
+            if k == 0 || k > 3 || rest.len() < 2 + k {
+                return (msgs, rest);
+            }
+            (2 + k, rest[2..2 + k].iter().fold(0usize, |a, b| (a << 8) | *b as usize))
+        };
+        if rest.len() < hl + len {
+            return (msgs, rest);
+        }
+        msgs.push(rest[..hl + len].to_vec());
+        rest = &rest[hl + len..];
+    }
+}
+
+/// `bytes` is a sequence of well-formed TLS records (type 20..23, version 3.x), possibly cut in the last one
+fn all_tls_records(mut b: &[u8]) -> bool {
+    while !b.is_empty() {
+        if b.len() < 5 {
+            return (0x14..=0x17).contains(&b[0]);
+        }
+        if !(0x14..=0x17).contains(&b[0]) || b[1] != 3 || b[2] > 4 {
+            return false;
+        }
+        let n = ((b[3] as usize) << 8) | b[4] as usize;
+        if n > 16384 + 2048 {
+            return false;
+        }
+        if b.len() < 5 + n {
+            return true;
+        }
+        b = &b[5 + n..];
+    }
+    true
+}
+
+// ---------------------------------------------------------------------------------------------
+// scenario description
+
+#[derive(Clone, Copy, PartialEq, Debug)]
+enum Scheme {
+    Ldap,
+    Ldaps,
+}
+
+#[derive(Clone, Copy, PartialEq, Debug)]
+enum Connector {
+    Default,
+    /// caller's connector: test CA added as root; `danger_accept_invalid_certs(flag)`
+    Custom(bool),
+}
+
+#[derive(Clone, Copy, Debug)]
+struct Cfg {
+    scheme: Scheme,
+    starttls: bool,
+    no_verify: bool,
+    conn: Connector,
+    timeout: bool,
+    host: &'static str,
+}
+
+impl Cfg {
+    fn mode(&self) -> &'static str {
+        match (self.scheme, self.starttls) {
+            (Scheme::Ldaps, _) => "direct",
+            (Scheme::Ldap, true) => "starttls",
+            (Scheme::Ldap, false) => "plain",
+        }
+    }
+    /// is certificate verification switched off (by the setting, or by the caller's connector which overrides it)
+    fn verify_off(&self) -> bool {
+        match self.conn {
+            Connector::Default => self.no_verify,
+            Connector::Custom(a) => a,
+        }
+    }
+    fn text(&self) -> String {
+        format!(
+            "{} {} {} {} {}",
+            if self.scheme == Scheme::Ldap { "ldap" } else { "ldaps" },
+            self.starttls as u8,
+            self.no_verify as u8,
+            match self.conn {
+                Connector::Default => "d",
+                Connector::Custom(false) => "c0",
+                Connector::Custom(true) => "c1",
+            },
+            self.timeout as u8
+        )
+    }
+}
+
+#[derive(Clone, Copy, PartialEq, Debug)]
+enum Cert {
+    Good,
+    WrongName,
+    SelfSigned,
+}
+
+impl Cert {
+    /// ground truth handed to the model as the TLS library's parameter: does the chain verify for the
+    /// host name (localhost / 127.0.0.1) under the roots the client uses
+    fn trusted(self, conn: Connector) -> bool {
+        self == Cert::Good && conn != Connector::Default
+    }
+    fn identity(self) -> native_tls::Identity {
+        let (c, k) = match self {
+            Cert::Good => (GOOD_PEM, GOOD_KEY),
+            Cert::WrongName => (WRONG_PEM, WRONG_KEY),
+            Cert::SelfSigned => (SELF_PEM, SELF_KEY),
+        };
+        native_tls::Identity::from_pkcs8(c, k).expect("test identity")
+    }
+    fn name(self) -> &'static str {
+        match self {
+            Cert::Good => "good",
+            Cert::WrongName => "wrongname",
+            Cert::SelfSigned => "selfsigned",
+        }
+    }
+}
+
+/// server script
+#[derive(Clone, Debug)]
+enum Step {
+    /// read one LDAPMessage in cleartext
+    ReadReq,
+    /// wait until the whole request is in the socket, leave it unread
+    PeekReq,
+    Write(Vec<u8>),
+    /// short sleep between the parts of one response
+    Pause,
+    /// block until the first byte of the ClientHello can be peeked: the client has left the LDAP layer
+    AwaitHello,
+    /// keep the connection open and silent until the client side is done
+    Hold,
+    /// TLS handshake with this certificate, then answer one request inside TLS
+    Tls(Cert),
+    /// plain LDAP: answer one request in cleartext with INNER_RC, then read to the end
+    PlainServe,
+    // leaving the script = close (FIN, or RST if unread data is pending)
+}
+
+#[derive(Clone, Copy, PartialEq, Debug)]
+enum End {
+    Eof,
+    Rst,
+    Silent,
+}
+
+#[derive(Clone, Copy, PartialEq, Debug)]
+enum Hs {
+    Ok,
+    Fail,
+    Stall,
+}
+
+#[derive(Clone, Debug)]
+struct Scen {
+    name: String,
+    cfg: Cfg,
+    script: Vec<Step>,
+    // the same behaviour in the model's terms
+    chunks: Vec<Vec<u8>>,
+    end: End,
+    hs: Hs,
+    cert: Cert,
+    /// oracle side: is this an establishment that must not yield a handle (and why)
+    bad: Option<&'static str>,
+    /// forged cleartext frames were placed behind a successful StartTLS response
+    forged: bool,
+}
+
+impl Scen {
+    fn behaviour_text(&self) -> String {
+        let chunks = if self.chunks.is_empty() {
+            String::from("-")
+        } else {
+            self.chunks.iter().map(|c| hex(c)).collect::<Vec<_>>().join(",")
+        };
+        format!(
+            "0 {} {} {} {}",
+            chunks,
+            match self.end {
+                End::Eof => "eof",
+                End::Rst => "rst",
+                End::Silent => "silent",
+            },
+            match self.hs {
+                Hs::Ok => "ok",
+                Hs::Fail => "fail",
+                Hs::Stall => "stall",
+            },
+            if self.cert.trusted(self.cfg.conn) { "t" } else { "u" }
+        )
+    }
+}
+
+// ---------------------------------------------------------------------------------------------
+// server
+
+#[derive(Debug)]
+struct Rec {
+    s: TcpStream,
+    log: Arc<Mutex<Vec<u8>>>,
+}
+
+impl Read for Rec {
+    fn read(&mut self, b: &mut [u8]) -> std::io::Result<usize> {
+        let n = self.s.read(b)?;
+        self.log.lock().unwrap().extend_from_slice(&b[..n]);
+        Ok(n)
+    }
+}
+
+impl Write for Rec {
+    fn write(&mut self, b: &[u8]) -> std::io::Result<usize> {
+        self.s.write(b)
+    }
+    fn flush(&mut self) -> std::io::Result<()> {
+        self.s.flush()
+    }
+}
+
+#[derive(Default, Debug)]
+struct SrvObs {
+    accepted: bool,
+    hs_done: bool,
+    /// requests read inside TLS (decrypted) or, for PlainServe, in cleartext
+    served: Vec<Vec<u8>>,
+    note: String,
+}
+
+fn serve(listener: TcpListener, script: Vec<Step>, log: Arc<Mutex<Vec<u8>>>, done: mpsc::Receiver<()>) -> SrvObs {
+    let mut obs = SrvObs::default();
+    listener.set_nonblocking(false).ok();
+    let (s, _) = match listener.accept() {
+        Ok(x) => x,
+        Err(e) => {
+            obs.note = format!("accept: {}", e);
+            return obs;
+        }
+    };
+    obs.accepted = true;
+    s.set_read_timeout(Some(Duration::from_millis(4000))).ok();
+    s.set_write_timeout(Some(Duration::from_millis(4000))).ok();
+    s.set_nodelay(true).ok();
+    let mut rec = Some(Rec { s, log: log.clone() });
+    for step in script {
+        match step {
+            Step::ReadReq => {
+                if let Err(e) = read_element(rec.as_mut().unwrap()) {
+                    obs.note = format!("readreq: {}", e);
+                    return obs;
+                }
+            }
+            Step::PeekReq => {
+                let want = starttls_request().len();
+                let mut buf = [0u8; 256];
+                let t0 = std::time::Instant::now();
+                loop {
+                    match rec.as_ref().unwrap().s.peek(&mut buf) {
+                        Ok(n) if n >= want => {
+                            log.lock().unwrap().extend_from_slice(&buf[..n]);
+                            break;
+                        }
+                        Ok(0) => break,
+                        Ok(_) => std::thread::sleep(Duration::from_millis(2)),
+                        Err(_) => break,
+                    }
+                    if t0.elapsed() > Duration::from_millis(4000) {
+                        break;
+                    }
+                }
+            }
+            Step::Write(b) => {
+                if let Err(e) = rec.as_mut().unwrap().s.write_all(&b) {
+                    obs.note = format!("write: {}", e);
+                    return obs;
+                }
+            }
+            Step::Pause => std::thread::sleep(Duration::from_millis(60)),
+            Step::AwaitHello => {
+                let mut b = [0u8; 1];
+                match rec.as_ref().unwrap().s.peek(&mut b) {
+                    Ok(n) if n > 0 => {}
+                    r => {
+                        obs.note = format!("awaithello: {:?}", r);
+                        return obs;
+                    }
+                }
+            }
+            Step::Hold => {
+                let _ = done.recv_timeout(Duration::from_millis(6000));
+                // drain what the client sent meanwhile (a ClientHello, if it got that far) into the log
+                let r = rec.as_mut().unwrap();
+                r.s.set_nonblocking(true).ok();
+                let mut b = [0u8; 4096];
+                while let Ok(n) = r.read(&mut b) {
+                    if n == 0 {
+                        break;
+                    }
+                }
+                return obs;
+            }
+            Step::Tls(cert) => {
+                let acc = native_tls::TlsAcceptor::new(cert.identity()).expect("acceptor");
+                match acc.accept(rec.take().unwrap()) {
+                    Ok(mut tls) => {
+                        obs.hs_done = true;
+                        // one request inside TLS: answer it with the INNER result
+                        if let Ok(req) = read_element(&mut tls) {
+                            let id = msg_id(&req).unwrap_or(0);
+                            obs.served.push(req);
+                            let _ = tls.write_all(&result_msg(id, 1, INNER_RC as u64, INNER_TEXT));
+                            // read to the end (unbind, close)
+                            while let Ok(m) = read_element(&mut tls) {
+                                obs.served.push(m);
+                            }
+                        }
+                    }
+                    Err(e) => {
+                        obs.note = format!("tls accept: {}", short(&format!("{}", e)));
+                    }
+                }
+                return obs;
+            }
+            Step::PlainServe => {
+                let r = rec.as_mut().unwrap();
+                if let Ok(req) = read_element(r) {
+                    let id = msg_id(&req).unwrap_or(0);
+                    obs.served.push(req);
+                    let _ = r.s.write_all(&result_msg(id, 1, INNER_RC as u64, "plain"));
+                    while let Ok(m) = read_element(r) {
+                        obs.served.push(m);
+                    }
+                }
+                return obs;
+            }
+        }
+    }
+    obs
+}
+
+fn short(s: &str) -> String {
+    s.chars().filter(|c| *c != '\t' && *c != '\n').take(80).collect()
+}
+
+fn msg_id(m: &[u8]) -> Option<u64> {
+    // 30 len 02 k id…
+    let (hl, _) = if m.len() > 1 && m[1] < 0x80 { (2, 0) } else { (2 + (m.get(1)? & 0x7f) as usize, 0) };
+    if *m.get(hl)? != 0x02 {
+        return None;
+    }
+    let k = *m.get(hl + 1)? as usize;
+    Some(m.get(hl + 2..hl + 2 + k)?.iter().fold(0u64, |a, b| (a << 8) | *b as u64))
+}
+
+// ---------------------------------------------------------------------------------------------
+// client
+
+#[derive(Debug, Default)]
+struct CliObs {
+    outcome: String,
+    peer_cert: Option<bool>,
+    bind: Option<(u32, String)>,
+    log_at_return: Vec<u8>,
+}
+
+fn err_kind(e: &LdapError) -> String {
+    match e {
+        LdapError::LdapResult { result } => format!("err:LdapResult:{}", result.rc),
+        LdapError::ResultRecv { .. } | LdapError::OpSend { .. } => String::from("err:DriverEnded"),
+        LdapError::NativeTLS { .. } => String::from("err:NativeTLS"),
+        LdapError::Timeout { .. } => String::from("err:Timeout"),
+        LdapError::Io { .. } => String::from("err:Io"),
+        _ => String::from("err:Other"),
+    }
+}
+
+/// the caller's connector (built once: loading the system roots takes ~65 ms)
+fn custom_connector(accept_invalid: bool) -> native_tls::TlsConnector {
+    static C: std::sync::OnceLock<[native_tls::TlsConnector; 2]> = std::sync::OnceLock::new();
+    let cs = C.get_or_init(|| {
+        let mk = |a: bool| {
+            let ca = native_tls::Certificate::from_pem(CA_PEM).expect("ca");
+            native_tls::TlsConnector::builder().add_root_certificate(ca).danger_accept_invalid_certs(a).build().expect("connector")
+        };
+        [mk(false), mk(true)]
+    });
+    cs[accept_invalid as usize].clone()
+}
+
+async fn client(cfg: Cfg, port: u16, log: Arc<Mutex<Vec<u8>>>) -> CliObs {
+    let mut obs = CliObs::default();
+    let mut settings = LdapConnSettings::new().set_starttls(cfg.starttls).set_no_tls_verify(cfg.no_verify);
+    if cfg.timeout {
+        settings = settings.set_conn_timeout(Duration::from_millis(CONN_TIMEOUT_MS));
+    }
+    if let Connector::Custom(accept_invalid) = cfg.conn {
+        settings = settings.set_connector(custom_connector(accept_invalid));
+    }
+    let url = format!("{}://{}:{}", if cfg.scheme == Scheme::Ldap { "ldap" } else { "ldaps" }, cfg.host, port);
+    let est = tokio::time::timeout(Duration::from_millis(OUTER_MS), LdapConnAsync::with_settings(settings, &url)).await;
+    obs.log_at_return = log.lock().unwrap().clone();
+    match est {
+        Err(_) => obs.outcome = String::from("hang"),
+        Ok(Err(e)) => obs.outcome = err_kind(&e),
+        Ok(Ok((conn, mut ldap))) => {
+            ldap3::drive!(conn);
+            let pc = tokio::time::timeout(Duration::from_millis(OUTER_MS), ldap.get_peer_certificate()).await;
+            obs.peer_cert = match pc {
+                Ok(Ok(c)) => Some(c.is_some()),
+                _ => None,
+            };
+            obs.outcome = match obs.peer_cert {
+                Some(true) => String::from("ok-secure"),
+                Some(false) => String::from("ok-plain"),
+                None => String::from("ok-unknown"),
+            };
+            let b = tokio::time::timeout(Duration::from_millis(OUTER_MS), ldap.simple_bind("cn=probe", "secret-probe")).await;
+            if let Ok(Ok(r)) = b {
+                obs.bind = Some((r.rc, r.text.clone()));
+            }
+            let _ = tokio::time::timeout(Duration::from_millis(500), ldap.unbind()).await;
+        }
+    }
+    obs
+}
+
+struct Ran {
+    scen: Scen,
+    cli: CliObs,
+    srv: SrvObs,
+    log: Vec<u8>,
+}
+
+async fn run_one(scen: Scen, sem: Arc<tokio::sync::Semaphore>) -> Ran {
+    // scenarios which wait for a time-out are cheap and run all at once; the others (CPU: the default
+    // connector loads the system roots) are throttled so that none of them comes near a time limit
+    let stalls = scen.hs == Hs::Stall || scen.end == End::Silent || (scen.end == End::Eof && scen.chunks.is_empty() && scen.cfg.mode() == "starttls");
+    let _permit = if stalls { None } else { Some(sem.acquire_owned().await.expect("semaphore")) };
+    let listener = TcpListener::bind("127.0.0.1:0").expect("bind");
+    let port = listener.local_addr().unwrap().port();
+    let log = Arc::new(Mutex::new(Vec::new()));
+    let (done_tx, done_rx) = mpsc::channel::<()>();
+    let script = scen.script.clone();
+    let slog = log.clone();
+    let th = std::thread::spawn(move || serve(listener, script, slog, done_rx));
+    let cfg = scen.cfg;
+    let clog = log.clone();
+    // own task: a panic on the caller's task (op_call's `expect`) is an outcome
+    let cli = match tokio::spawn(client(cfg, port, clog)).await {
+        Ok(o) => o,
+        Err(e) => CliObs { outcome: String::from(if e.is_panic() { "panic" } else { "cancelled" }), ..Default::default() },
+    };
+    drop(done_tx);
+    let srv = tokio::task::spawn_blocking(move || th.join().unwrap_or_default()).await.unwrap_or_default();
+    let log = log.lock().unwrap().clone();
+    Ran { scen, cli, srv, log }
+}
+
+// ---------------------------------------------------------------------------------------------
+// scenario table
+
+fn cfgs_tls(scheme: Scheme, starttls: bool) -> Vec<Cfg> {
+    let mut v = vec![];
+    for no_verify in [false, true] {
+        for conn in [Connector::Default, Connector::Custom(false), Connector::Custom(true)] {
+            v.push(Cfg { scheme, starttls, no_verify, conn, timeout: false, host: "localhost" });
+        }
+    }
+    v
+}
+
+fn success_resp() -> Vec<u8> {
+    // ExtendedResponse success with the responseName
+    let mut body = der(0x0a, &[0]);
+    body.extend(der(0x04, b""));
+    body.extend(der(0x04, b""));
+    body.extend(der(0x8a, STARTTLS_OID.as_bytes()));
+    let mut m = der(0x02, &[1]);
+    m.extend(der(0x78, &body));
+    der(0x30, &m)
+}
+
+fn forged_frames() -> Vec<u8> {
+    // BindResponse success for the ID the first operation of the session will get (2), and a
+    // SearchResultEntry + SearchResultDone for the same ID
+    let mut v = result_msg(2, 1, 0, "forged-cleartext");
+    v.extend(entry_msg(2, "cn=forged"));
+    v.extend(result_msg(2, 5, 0, "forged-cleartext"));
+    v
+}
+
+fn scenarios(thorough: bool, rng: &mut Rng) -> Vec<Scen> {
+    let mut v: Vec<Scen> = vec![];
+    let hosts = ["localhost", "127.0.0.1"];
+    let st_cfgs = cfgs_tls(Scheme::Ldap, true);
+    let mut k = 0usize;
+    let mut next_cfg = |timeout: bool| {
+        k += 1;
+        let mut c = st_cfgs[k % st_cfgs.len()];
+        c.timeout = timeout;
+        c.host = hosts[(k / st_cfgs.len()) % 2];
+        c
+    };
+    let vname = |c: &Cfg| {
+        format!(
+            "{}{}",
+            if c.no_verify { "noverify" } else { "verify" },
+            match c.conn {
+                Connector::Default => "",
+                Connector::Custom(false) => "+ca",
+                Connector::Custom(true) => "+ca-acceptinvalid",
+            }
+        )
+    };
+
+    // --- StartTLS refused with a non-zero code
+    let mut rcs: Vec<(u64, u8)> = vec![(1, 24), (2, 24), (52, 24), (80, 24), (4096, 24), (53, 24), (2147483647, 24), (4294967295, 24), (13, 1)];
+    let extra = if thorough { 40 } else { 4 };
+    for _ in 0..extra {
+        rcs.push((rng.range(1, 4294967295), 24));
+    }
+    for (i, (rc, app)) in rcs.iter().enumerate() {
+        let cfg = next_cfg(false);
+        let resp = result_msg(1, *app, *rc, "refused");
+        // every other one offers the handshake all the same, and trails a forged success
+        let mut script = vec![Step::ReadReq, Step::Write(resp.clone())];
+        let mut chunks = vec![resp.clone()];
+        if i % 2 == 1 {
+            let mut w = resp.clone();
+            w.extend(result_msg(1, 24, 0, "forged"));
+            script = vec![Step::ReadReq, Step::Write(w.clone()), Step::Tls(Cert::Good)];
+            chunks = vec![w];
+        }
+        v.push(Scen { name: format!("starttls/refused-rc{}-app{}/{}", rc, app, vname(&cfg)), cfg, script, chunks, end: End::Eof, hs: if i % 2 == 1 { Hs::Ok } else { Hs::Fail }, cert: Cert::Good, bad: Some("refused"), forged: false });
+    }
+
+    // --- garbage instead of a response
+    let mut garbage: Vec<Vec<u8>> = vec![
+        vec![0x30, 0x00],
+        b"HTTP/1.1 400 Bad Request\r\nContent-Length: 0\r\nConnection: close\r\nServer: not-ldap/1.0 (test)\r\n\r\n".to_vec(),
+        vec![0x15, 0x03, 0x03, 0x00, 0x02, 0x02, 0x28], // a TLS alert in answer to a cleartext request
+        vec![0x30, 0x03, 0x02, 0x01],                   // truncated, then EOF
+        vec![0xff, 0xff, 0xff, 0xff, 0xff, 0xff],
+        vec![0x30, 0x84, 0xff, 0xff, 0xff, 0xff, 0x00],
+    ];
+    for _ in 0..(if thorough { 60 } else { 6 }) {
+        let n = rng.range(1, 24) as usize;
+        garbage.push(rng.bytes(n));
+    }
+    for (i, g) in garbage.iter().enumerate() {
+        let cfg = next_cfg(true);
+        v.push(Scen { name: format!("starttls/garbage-{}/{}", i, vname(&cfg)), cfg, script: vec![Step::ReadReq, Step::Write(g.clone())], chunks: vec![g.clone()], end: End::Eof, hs: Hs::Fail, cert: Cert::Good, bad: Some("garbage"), forged: false });
+    }
+
+    // --- a response which is not an LDAPResult (the caller's task panics in op_call)
+    for (i, m) in [vec![0x30, 0x05, 0x02, 0x01, 0x01, 0x78, 0x00], vec![0x30, 0x08, 0x02, 0x01, 0x01, 0x78, 0x03, 0x04, 0x01, 0x41]].iter().enumerate() {
+        let cfg = next_cfg(true);
+        v.push(Scen { name: format!("starttls/not-a-result-{}/{}", i, vname(&cfg)), cfg, script: vec![Step::ReadReq, Step::Write(m.clone()), Step::Hold], chunks: vec![m.clone()], end: End::Silent, hs: Hs::Stall, cert: Cert::Good, bad: Some("garbage"), forged: false });
+    }
+
+    // --- close / reset / silence instead of a response; with and without conn_timeout
+    for timeout in [true, false] {
+        let cfg = next_cfg(timeout);
+        v.push(Scen { name: format!("starttls/close-after-request/timeout{}/{}", timeout as u8, vname(&cfg)), cfg, script: vec![Step::ReadReq], chunks: vec![], end: End::Eof, hs: Hs::Fail, cert: Cert::Good, bad: Some("close"), forged: false });
+        let cfg = next_cfg(timeout);
+        v.push(Scen { name: format!("starttls/reset/timeout{}/{}", timeout as u8, vname(&cfg)), cfg, script: vec![Step::PeekReq], chunks: vec![], end: End::Rst, hs: Hs::Fail, cert: Cert::Good, bad: Some("close"), forged: false });
+        let cfg = next_cfg(timeout);
+        v.push(Scen { name: format!("starttls/silence/timeout{}/{}", timeout as u8, vname(&cfg)), cfg, script: vec![Step::ReadReq, Step::Hold], chunks: vec![], end: End::Silent, hs: Hs::Stall, cert: Cert::Good, bad: Some("silence"), forged: false });
+        // half a response, then close / silence
+        let half = success_resp()[..9].to_vec();
+        let cfg = next_cfg(timeout);
+        v.push(Scen { name: format!("starttls/half-response-close/timeout{}/{}", timeout as u8, vname(&cfg)), cfg, script: vec![Step::ReadReq, Step::Write(half.clone())], chunks: vec![half.clone()], end: End::Eof, hs: Hs::Fail, cert: Cert::Good, bad: Some("close"), forged: false });
+        let cfg = next_cfg(timeout);
+        v.push(Scen { name: format!("starttls/half-response-silence/timeout{}/{}", timeout as u8, vname(&cfg)), cfg, script: vec![Step::ReadReq, Step::Write(half.clone()), Step::Hold], chunks: vec![half], end: End::Silent, hs: Hs::Stall, cert: Cert::Good, bad: Some("silence"), forged: false });
+        // a success for another message ID (alone, or followed by the right one in the same write)
+        let other = result_msg(7, 24, 0, "other-id");
+        let cfg = next_cfg(timeout);
+        v.push(Scen { name: format!("starttls/foreign-id/timeout{}/{}", timeout as u8, vname(&cfg)), cfg, script: vec![Step::ReadReq, Step::Write(other.clone()), Step::Hold], chunks: vec![other.clone()], end: End::Silent, hs: Hs::Stall, cert: Cert::Good, bad: Some("silence"), forged: false });
+        let mut both = other.clone();
+        both.extend(success_resp());
+        let cfg = next_cfg(timeout);
+        v.push(Scen { name: format!("starttls/foreign-id-then-success/timeout{}/{}", timeout as u8, vname(&cfg)), cfg, script: vec![Step::ReadReq, Step::Write(both.clone()), Step::Hold], chunks: vec![both], end: End::Silent, hs: Hs::Stall, cert: Cert::Good, bad: Some("silence"), forged: false });
+    }
+
+    // --- success, then the handshake: every certificate under every verification setting
+    for (hi, host) in hosts.iter().enumerate() {
+        for base in cfgs_tls(Scheme::Ldap, true) {
+            for cert in [Cert::Good, Cert::WrongName, Cert::SelfSigned] {
+                if hi == 1 && !thorough && cert == Cert::SelfSigned {
+                    continue;
+                }
+                let mut cfg = base;
+                cfg.host = host;
+                let untrusted = !cfg.verify_off() && !cert.trusted(cfg.conn);
+                v.push(Scen {
+                    name: format!("starttls/handshake-{}/{}/{}", cert.name(), vname(&cfg), host),
+                    cfg,
+                    script: vec![Step::ReadReq, Step::Write(success_resp()), Step::Tls(cert)],
+                    chunks: vec![success_resp()],
+                    end: End::Eof,
+                    hs: Hs::Ok,
+                    cert,
+                    bad: if untrusted { Some("untrusted") } else { None },
+                    forged: false,
+                });
+            }
+        }
+    }
+
+    // --- success with forged cleartext frames behind it
+    for base in cfgs_tls(Scheme::Ldap, true) {
+        for cert in [Cert::Good, Cert::SelfSigned] {
+            let untrusted = !base.verify_off() && !cert.trusted(base.conn);
+            let bad = if untrusted { Some("untrusted") } else { None };
+            // (a) same write as the response: the frames are in Framed's read buffer when the driver turn ends
+            let mut w = success_resp();
+            w.extend(forged_frames());
+            v.push(Scen { name: format!("starttls/forged-same-write/{}/{}", cert.name(), vname(&base)), cfg: base, script: vec![Step::ReadReq, Step::Write(w.clone()), Step::Tls(cert)], chunks: vec![w], end: End::Eof, hs: Hs::Ok, cert, bad, forged: true });
+            // (b) the response split over two writes, the forged frames in the second one
+            let r = success_resp();
+            let (a, b) = r.split_at(11);
+            let mut w2 = b.to_vec();
+            w2.extend(forged_frames());
+            v.push(Scen { name: format!("starttls/forged-split-response/{}/{}", cert.name(), vname(&base)), cfg: base, script: vec![Step::ReadReq, Step::Write(a.to_vec()), Step::Pause, Step::Write(w2.clone()), Step::Tls(cert)], chunks: vec![a.to_vec(), w2], end: End::Eof, hs: Hs::Ok, cert, bad, forged: true });
+            // (c) separate write once the client has switched: the TLS library gets the frames
+            v.push(Scen { name: format!("starttls/forged-separate-write/{}/{}", cert.name(), vname(&base)), cfg: base, script: vec![Step::ReadReq, Step::Write(success_resp()), Step::AwaitHello, Step::Write(forged_frames()), Step::Tls(cert)], chunks: vec![success_resp(), forged_frames()], end: End::Eof, hs: Hs::Ok, cert, bad: Some("handshake"), forged: true });
+        }
+    }
+    // forged frames and no handshake at all
+    {
+        let mut w = success_resp();
+        w.extend(forged_frames());
+        let cfg = next_cfg(true);
+        v.push(Scen { name: format!("starttls/forged-same-write-no-handshake-close/{}", vname(&cfg)), cfg, script: vec![Step::ReadReq, Step::Write(w.clone()), Step::AwaitHello], chunks: vec![w.clone()], end: End::Eof, hs: Hs::Fail, cert: Cert::Good, bad: Some("handshake"), forged: true });
+        let cfg = next_cfg(true);
+        v.push(Scen { name: format!("starttls/forged-same-write-no-handshake-silent/{}", vname(&cfg)), cfg, script: vec![Step::ReadReq, Step::Write(w.clone()), Step::Hold], chunks: vec![w], end: End::Silent, hs: Hs::Stall, cert: Cert::Good, bad: Some("handshake"), forged: true });
+        let cfg = next_cfg(false);
+        v.push(Scen { name: format!("starttls/success-then-stall-no-timeout/{}", vname(&cfg)), cfg, script: vec![Step::ReadReq, Step::Write(success_resp()), Step::Hold], chunks: vec![success_resp()], end: End::Silent, hs: Hs::Stall, cert: Cert::Good, bad: Some("handshake"), forged: false });
+        let cfg = next_cfg(true);
+        v.push(Scen { name: format!("starttls/success-then-close/{}", vname(&cfg)), cfg, script: vec![Step::ReadReq, Step::Write(success_resp()), Step::AwaitHello], chunks: vec![success_resp()], end: End::Eof, hs: Hs::Fail, cert: Cert::Good, bad: Some("handshake"), forged: false });
+    }
+
+    // --- ldaps (the StartTLS setting is overridden)
+    for starttls in [false, true] {
+        for base in cfgs_tls(Scheme::Ldaps, starttls) {
+            for cert in [Cert::Good, Cert::WrongName, Cert::SelfSigned] {
+                if starttls && !thorough && cert == Cert::WrongName {
+                    continue;
+                }
+                let mut cfg = base;
+                cfg.host = hosts[(starttls as usize + cert as usize) % 2];
+                let untrusted = !cfg.verify_off() && !cert.trusted(cfg.conn);
+                v.push(Scen { name: format!("ldaps{}/handshake-{}/{}", if starttls { "+starttls" } else { "" }, cert.name(), vname(&cfg)), cfg, script: vec![Step::Tls(cert)], chunks: vec![], end: End::Eof, hs: Hs::Ok, cert, bad: if untrusted { Some("untrusted") } else { None }, forged: false });
+            }
+        }
+    }
+    for (i, base) in cfgs_tls(Scheme::Ldaps, false).into_iter().enumerate() {
+        let mut cfg = base;
+        cfg.timeout = true;
+        cfg.starttls = i % 2 == 1;
+        match i % 3 {
+            0 => {
+                // cleartext LDAP instead of a ServerHello
+                let w = forged_frames();
+                v.push(Scen { name: format!("ldaps/cleartext-instead-of-handshake/{}", vname(&cfg)), cfg, script: vec![Step::AwaitHello, Step::Write(w.clone()), Step::Tls(Cert::Good)], chunks: vec![w], end: End::Eof, hs: Hs::Ok, cert: Cert::Good, bad: Some("handshake"), forged: true });
+            }
+            1 => v.push(Scen { name: format!("ldaps/close-at-hello/{}", vname(&cfg)), cfg, script: vec![Step::AwaitHello], chunks: vec![], end: End::Eof, hs: Hs::Fail, cert: Cert::Good, bad: Some("handshake"), forged: false }),
+            _ => v.push(Scen { name: format!("ldaps/stall/{}", vname(&cfg)), cfg, script: vec![Step::Hold], chunks: vec![], end: End::Silent, hs: Hs::Stall, cert: Cert::Good, bad: Some("handshake"), forged: false }),
+        }
+    }
+
+    // --- plain ldap: the property does not apply; nothing is encrypted
+    for no_verify in [false, true] {
+        for conn in [Connector::Default, Connector::Custom(false)] {
+            let cfg = Cfg { scheme: Scheme::Ldap, starttls: false, no_verify, conn, timeout: false, host: hosts[no_verify as usize] };
+            v.push(Scen { name: format!("plain/{}", vname(&cfg)), cfg, script: vec![Step::PlainServe], chunks: vec![], end: End::Eof, hs: Hs::Fail, cert: Cert::Good, bad: None, forged: false });
+        }
+    }
+    v
+}
+
+// ---------------------------------------------------------------------------------------------
+// judging
+
+fn judge(out: &mut Out, r: &Ran) {
+    let s = &r.scen;
+    let mode = s.cfg.mode();
+    let canonical = format!("{} {}", s.cfg.text(), s.behaviour_text());
+    out.case(&format!("{} {}", s.name, canonical), mode != "plain");
+    out.stat(&format!("mode.{}", mode));
+    out.stat(&format!("outcome.{}", r.cli.outcome.split(':').take(2).collect::<Vec<_>>().join(":")));
+    if let Some(b) = s.bad {
+        out.stat(&format!("bad.{}", b));
+    }
+    if s.forged {
+        out.stat("forged-cleartext");
+    }
+
+    // what the server received in cleartext before the first TLS record
+    let (clear, rest) = split_cleartext(&r.log);
+    let is_ok = r.cli.outcome.starts_with("ok");
+    // for plain LDAP the lane itself talks cleartext after establishment: what counts for the model is
+    // what had been written when establishment returned
+    let (est_clear, _) = if mode == "plain" { split_cleartext(&r.cli.log_at_return) } else { (clear.clone(), rest) };
+    let writes = if est_clear.is_empty() { String::from("-") } else { est_clear.iter().map(|m| hex(m)).collect::<Vec<_>>().join(",") };
+    let tls = (r.cli.peer_cert == Some(true)) as u8;
+    out.m(&format!("tls.run {}", canonical), &format!("{} writes={} tls={}", r.cli.outcome, writes, tls));
+
+    // R1: cleartext before the handshake is exactly the StartTLS request (StartTLS) or nothing (ldaps);
+    // everything after it is TLS records
+    if mode != "plain" {
+        let expect: Vec<Vec<u8>> = if mode == "starttls" { vec![starttls_request()] } else { vec![] };
+        let ok = clear == expect && all_tls_records(rest) && (rest.is_empty() || rest[0] == 0x16);
+        out.r(
+            &format!("tls.cleartext-is-only-the-starttls-request {}", s.name),
+            ok,
+            &format!("cleartext=[{}] then {} bytes starting {}", clear.iter().map(|m| hex(m)).collect::<Vec<_>>().join(","), rest.len(), hex(&rest[..rest.len().min(6)])),
+        );
+    }
+
+    // R2: a handle is handed back only over a completed, verified TLS session
+    if mode != "plain" {
+        let secure = r.cli.peer_cert == Some(true) && r.srv.hs_done && (s.cfg.verify_off() || s.cert.trusted(s.cfg.conn));
+        out.r(
+            &format!("tls.handle-only-if-secure {}", s.name),
+            !is_ok || secure,
+            &format!("outcome={} peer_cert={:?} server_handshake_done={} verify_off={} cert={}", r.cli.outcome, r.cli.peer_cert, r.srv.hs_done, s.cfg.verify_off(), s.cert.name()),
+        );
+    }
+
+    // R3: a bad establishment yields no handle
+    if let Some(why) = s.bad {
+        out.r(&format!("tls.bad-establishment-fails({}) {}", why, s.name), !is_ok, &format!("outcome={}", r.cli.outcome));
+    } else if mode != "plain" {
+        // and a good one succeeds (the scenarios are not vacuous)
+        out.r(&format!("tls.good-establishment-succeeds {}", s.name), r.cli.outcome == "ok-secure", &format!("outcome={} server={}", r.cli.outcome, r.srv.note));
+    }
+
+    // R4: inside the protected session the caller sees what the server sent inside TLS, never the forged frames
+    if is_ok && mode != "plain" {
+        let want = Some((INNER_RC, String::from(INNER_TEXT)));
+        let served_bind = r.srv.served.first().map(|m| msg_id(m)).flatten();
+        let expect_id = if mode == "starttls" { Some(2) } else { Some(1) };
+        out.r(
+            &format!("tls.session-sees-only-tls-data {}", s.name),
+            r.cli.bind == want && served_bind == expect_id,
+            &format!("bind={:?} want={:?} request-id-inside-tls={:?}", r.cli.bind, want, served_bind),
+        );
+    }
+
+    // R5: plain ldap is untouched
+    if mode == "plain" {
+        let all_clear = rest.is_empty() && !clear.is_empty() && r.srv.served.len() == clear.len();
+        out.r(
+            &format!("tls.plain-ldap-untouched {}", s.name),
+            r.cli.outcome == "ok-plain" && all_clear && r.cli.bind == Some((INNER_RC, String::from("plain"))) && est_clear.is_empty(),
+            &format!("outcome={} cleartext-messages={} trailing={} bind={:?}", r.cli.outcome, clear.len(), rest.len(), r.cli.bind),
+        );
+    }
+}
+
+pub fn run(thorough: bool, mut rng: Rng, mut out: Out) {
+    let mut scens = scenarios(thorough, &mut rng);
+    if let Ok(only) = std::env::var("VERIF_TLS_ONLY") {
+        // debugging aid: run the scenarios whose name contains the given text
+        scens.retain(|s| s.name.contains(&only));
+    }
+    let rt = tokio::runtime::Builder::new_multi_thread().worker_threads(8).max_blocking_threads(512).enable_all().build().expect("tokio runtime");
+    let _ = custom_connector(false);
+    let sem = Arc::new(tokio::sync::Semaphore::new(6));
+    let results: Vec<Ran> = rt.block_on(async move { futures_util::future::join_all(scens.into_iter().map(|s| run_one(s, sem.clone()))).await });
+    for r in &results {
+        judge(&mut out, r);
+    }
+    rt.shutdown_timeout(Duration::from_millis(200));
+    out.finish("one case = one scripted loopback establishment (scheme x StartTLS x verification x connector x server behaviour); non-trivial = TLS was requested (ldaps or StartTLS)");
 }
